@@ -62,8 +62,8 @@ private def tX : Task :=
   { name := [120], label := [], method := .checksum, sources := [⟨false, [0]⟩], generates := [],
     status := [], prompt := false, dir := none, cmds := [⟨[]⟩] }
 private def tD : Task := { tX with dir := some 0, sources := [] }
-private def prX : Proj := { base := [(0, [97])], dirOf := [], tasks := [tX] }
-private def prD : Proj := { base := [], dirOf := [], tasks := [tD] }
+private def prX : Proj := { base := [(0, [97])], dirOf := [], dirLen := [], tasks := [tX] }
+private def prD : Proj := { base := [], dirOf := [], dirLen := [(0, 2)], tasks := [tD] }
 private def s1 : State := { State.empty with files := [(0, ⟨[1], 5⟩)] }
 private def env (n : Nat) : Env := ⟨n, false, none, none⟩
 
